@@ -25,45 +25,62 @@ func (r *yieldRewriter) ignoreKeyVal(k, v ast.Expr) (bool, bool) {
 func (r *yieldRewriter) rewriteRanges(block *ast.BlockStmt) {
 	astutil.Apply(block, nil, func(c *astutil.Cursor) bool {
 		switch n := c.Node().(type) {
+		case *ast.LabeledStmt:
+			// L: for ... range ...  =>  it := ...; L: for it.MoveNext() ...
+			// the range stmt is not an element of a stmt list, the init goes in front of the label
+			if rng, ok := n.Stmt.(*ast.RangeStmt); ok {
+				r.rewriteRange(rng, func(init *ast.AssignStmt, forStmt *ast.ForStmt) {
+					c.InsertBefore(init)
+					n.Stmt = forStmt
+				})
+			}
 		case *ast.RangeStmt:
-			do := func(ctor string, arg ast.Expr) {
-				factory := r.SeqSelect(ctor)
-				iter := X.Call(factory, arg)
-				init, forStmt := r.rewriteRangeToForIter(n, iter)
+			if _, labeled := c.Parent().(*ast.LabeledStmt); labeled {
+				return true // rewritten when the label is visited
+			}
+			r.rewriteRange(n, func(init *ast.AssignStmt, forStmt *ast.ForStmt) {
 				c.InsertBefore(init)
 				c.Replace(forStmt)
-			}
-
-			ty := r.pkg.TypeOf(n.X)
-			r.assert(!isNil(ty), n.X, "type missing")
-			ty = ty.Underlying()
-
-			switch ty := ty.(type) {
-			case *types.Basic:
-				switch {
-				case ty.Info()&types.IsString != 0:
-					do(cstNewStringIter, n.X)
-				case ty.Info()&types.IsInteger != 0:
-					// >= 1.22 only, but no release, need test
-					do(cstNewIntegerIter, n.X)
-				}
-			case *types.Array:
-				// typing workaround for abstract generic array iter
-				// type can't be infered from array, so we wrap it with slice
-				typeInfered := &ast.SliceExpr{X: n.X}
-				do(cstNewSliceIter, typeInfered)
-			case *types.Slice:
-				do(cstNewSliceIter, n.X)
-			case *types.Map:
-				do(cstNewMapIter, n.X)
-			case *types.Chan:
-				do(cstNewChanIter, n.X)
-			case *types.Signature:
-				panic("implement me: range func")
-			}
+			})
 		}
 		return true
 	})
+}
+
+func (r *yieldRewriter) rewriteRange(n *ast.RangeStmt, emit func(*ast.AssignStmt, *ast.ForStmt)) {
+	do := func(ctor string, arg ast.Expr) {
+		factory := r.SeqSelect(ctor)
+		iter := X.Call(factory, arg)
+		emit(r.rewriteRangeToForIter(n, iter))
+	}
+
+	ty := r.pkg.TypeOf(n.X)
+	r.assert(!isNil(ty), n.X, "type missing")
+	ty = ty.Underlying()
+
+	switch ty := ty.(type) {
+	case *types.Basic:
+		switch {
+		case ty.Info()&types.IsString != 0:
+			do(cstNewStringIter, n.X)
+		case ty.Info()&types.IsInteger != 0:
+			// >= 1.22 only, but no release, need test
+			do(cstNewIntegerIter, n.X)
+		}
+	case *types.Array:
+		// typing workaround for abstract generic array iter
+		// type can't be infered from array, so we wrap it with slice
+		typeInfered := &ast.SliceExpr{X: n.X}
+		do(cstNewSliceIter, typeInfered)
+	case *types.Slice:
+		do(cstNewSliceIter, n.X)
+	case *types.Map:
+		do(cstNewMapIter, n.X)
+	case *types.Chan:
+		do(cstNewChanIter, n.X)
+	case *types.Signature:
+		panic("implement me: range func")
+	}
 }
 
 func (r *yieldRewriter) rewriteRangeToForIter(
